@@ -803,8 +803,8 @@ def checkUnusedDefines (opts : Opts) (d : Decls) : List String :=
     | none => some s!"unused define `{dv.1}`"
     | some _ => none
 
-/-- **`asm::assemble`**: success with output, or the list of error messages (first = first reported) -/
-def assemble (opts : Opts) (fs : SrcFiles) (roots : List (List Char)) : Except (List String) AsmOk :=
+/-- everything up to and including `match_all` -/
+def frontEnd (opts : Opts) (fs : SrcFiles) (roots : List (List Char)) : Except (List String) (Static × List AstNode × Defs) :=
   match parseMany fs roots with
   | .error e => .error [e]
   | .ok nodes =>
@@ -824,19 +824,66 @@ def assemble (opts : Opts) (fs : SrcFiles) (roots : List (List Char)) : Except (
           | .ok (defs, nodes) =>
             let (defs, rep) := matchAll opts d defs nodes
             if !rep.isEmpty then .error rep
-            else
-              let st : Static := ⟨opts, d, roots.headD [], fs⟩
-              match resolveIteratively st nodes defs with
-              | .error msgs => .error msgs
-              | .ok (iters, defs, rep) =>
-                if !rep.isEmpty then .error rep
-                else if !checkBankOverlap defs.banks then .error [layErrMsg .bankOverlap]
-                else
-                  let unused := checkUnusedDefines opts d
-                  if !unused.isEmpty then .error unused
-                  else
-                    match buildLoop defs.banks ⟨initIter defs.banks, fillBanks defs.banks [], [], []⟩ (outputItems st defs nodes) with
-                    | .error e => .error [layErrMsg e]
-                    | .ok bst => .ok ⟨bst.out, bst.spans, symbolListing d defs, iters⟩
+            else .ok (⟨opts, d, roots.headD [], fs⟩, nodes, defs)
+
+/-- **`asm::assemble`**: success with output, or the list of error messages (first = first reported) -/
+def assemble (opts : Opts) (fs : SrcFiles) (roots : List (List Char)) : Except (List String) AsmOk :=
+  match frontEnd opts fs roots with
+  | .error e => .error e
+  | .ok (st, nodes, defs) =>
+    match resolveIteratively st nodes defs with
+    | .error msgs => .error msgs
+    | .ok (iters, defs, rep) =>
+      if !rep.isEmpty then .error rep
+      else if !checkBankOverlap defs.banks then .error [layErrMsg .bankOverlap]
+      else
+        let unused := checkUnusedDefines opts st.decls
+        if !unused.isEmpty then .error unused
+        else
+          match buildLoop defs.banks ⟨initIter defs.banks, fillBanks defs.banks [], [], []⟩ (outputItems st defs nodes) with
+          | .error e => .error [layErrMsg e]
+          | .ok bst => .ok ⟨bst.out, bst.spans, symbolListing st.decls defs, iters⟩
+
+/-- the part of the resolver state that passes read and write -/
+structure StateDump where
+  symbols : List (Option Value)
+  instrs : List BI
+  datas : List BI
+  res : List Nat
+  aligns : List Nat
+  addrs : List Int
+
+def Defs.dump (d : Defs) : StateDump :=
+  ⟨d.symbols.map (·.map (·.value)), d.instrs.map (·.encoding), d.datas.map (·.encoding), d.res, d.aligns, d.addrs⟩
+
+/-- overwrite the values of a state (after `match_all`) with a dumped state; all short-cut marks cleared
+    except for function symbols -/
+def Defs.withDump (d : Defs) (s : StateDump) : Defs :=
+  { d with
+    symbols := (List.range d.symbols.length).map fun i =>
+      match d.symbols.getD i none, s.symbols.getD i none with
+      | some sd, some v => some { sd with value := v, resolved := match v with | .fn _ => true | _ => false }
+      | o, _ => o
+    instrs := (List.range d.instrs.length).map fun i => { (d.instrs.getD i default) with encoding := s.instrs.getD i default, resolved := false }
+    datas := (List.range d.datas.length).map fun i => { (d.datas.getD i default) with encoding := s.datas.getD i default, resolved := false }
+    res := s.res, aligns := s.aligns, addrs := s.addrs }
+
+def StateDump.same (a b : StateDump) : Bool :=
+  a.symbols == b.symbols && a.instrs == b.instrs && a.datas == b.datas && a.res == b.res && a.aligns == b.aligns && a.addrs == b.addrs
+
+/-- **Fixed-point certificate** (C02): a claimed final state is re-checked by one strict
+    (guessing forbidden), non-first pass; it must be accepted, stable, silent and unchanged. -/
+def certify (opts : Opts) (fs : SrcFiles) (roots : List (List Char)) (claimed : StateDump) : Except String Unit :=
+  match frontEnd opts fs roots with
+  | .error e => .error ("front end: " ++ e.headD "?")
+  | .ok (st, nodes, defs) =>
+    let d := defs.withDump claimed
+    match resolveOnce st nodes false true d with
+    | .error (m, _) => .error ("strict pass fails: " ++ m)
+    | .ok (d', stable, rep) =>
+      if !rep.isEmpty then .error ("strict pass reports: " ++ rep.headD "?")
+      else if !stable then .error "strict pass is not stable"
+      else if !(d'.dump.same d.dump) then .error "strict pass changes the state"
+      else .ok ()
 
 end Casm
